@@ -962,9 +962,12 @@ def check_store(run: Run, prog: Program) -> None:  # noqa: C901
         ok = len(data_w) == 1
         if ok:
             pos, tgt, val, _line = data_w[0]
-            slot_of = _index_arg(prog, tgt.slice, "self", up.qual)  # type: ignore[attr-defined]
+            try:
+                slot_of = u(_index_arg(prog, tgt.slice, "self", up.qual))  # type: ignore[attr-defined]
+            except AnalysisError:
+                slot_of = ""   # not `self.to_internal_index(T)` with the range check on
             hv = truth(p, has)
-            ok = u(slot_of) == t_norm and pos > bounds_done and (
+            ok = slot_of == t_norm and pos > bounds_done and (
                 (hv is True and u(val) == f"{sample}.value.base_value") or (hv is False and u(val) in NAN_TEXTS))
         run.check(ok, "C09.STORE", up.qual, "self._buffer[self.to_internal_index(T)] = value if has_value else NaN",
                   "update() does not store the sample's value (NaN iff it has no valid value) exactly once at the "
@@ -1804,7 +1807,7 @@ def check(run: Run, prog: Program, tier: str) -> str:
     run.floor("C09.GAP", 6)
     from ..engine.controls import run_controls
 
-    run_controls(run, CONTROLS, run_rules, tier, select=_rules_for)
+    run_controls(run, CONTROLS, run_rules, tier, base_prog=prog, select=_rules_for)
     run.assume("aligned ± k·sampling_period is aligned; datetime arithmetic is exact (timedelta "
                "microsecond resolution)")
     run.undecided("consistency of the incrementally maintained gap list / count_valid with the "
